@@ -14,6 +14,9 @@ CH = 'tarpc/src/transport/channel.rs'
 ST = 'tarpc/src/serde_transport.rs'
 
 RULES = [
+    Rule('R2:project-let', r'let (this|self_|me|projected) = self\s*\.project\(\);', r'let \1 = self;', flags=re.M | re.S, why='A-pin: the projection bound to a local is the (re-borrowed) struct itself; its fields are places'),
+    Rule('R2:project-let-deref', r'(?<![\w.])\*(this|self_|me|projected)\.(\w+)', r'\1.\2', why='A-pin: a projected field is a reference to the field; dereferencing it is the field'),
+    Rule('R2:project-let-take', r'(?:std::)?mem::(take|replace)\((this|self_|me|projected)\.(\w+)', r'std::mem::\1(&mut \2.\3', why='A-pin: a projected non-pinned field is `&mut field`'),
     Rule('R2:project-binding', r'self\s*\.project\(\)\s*\.(\w+);', r'&mut self.\1;', flags=re.M | re.S, why='A-pin: a projected field bound to a local is a mutable borrow of that field'),
     Rule('R2:project', r'self\s*\.project\(\)\s*\.', 'self.', flags=re.M | re.S, why='A-pin: projection is field access'),
     Rule('R5:boxed-error', r"Box<dyn Error \+ Send \+ Sync \+ 'static>", 'BoxErr', why='opaque boxed error (prelude model)'),
@@ -53,8 +56,8 @@ RECV = '''
 def unit():
     return Unit('transports', prelude=['base.rs', 'forward.rs'], rules=RULES, parts=[
         TypeItem(CH, 'enum', 'ChannelError', attrs=''),
-        TypeItem(CH, 'struct', 'UnboundedChannel', attrs='#[verifier::reject_recursive_types(Item)] #[verifier::reject_recursive_types(SinkItem)]'),
-        TypeItem(CH, 'struct', 'Channel', attrs='#[verifier::reject_recursive_types(Item)] #[verifier::reject_recursive_types(SinkItem)]'),
+        TypeItem(CH, 'struct', 'UnboundedChannel', known_fields=['rx', 'tx'], attrs='#[verifier::reject_recursive_types(Item)] #[verifier::reject_recursive_types(SinkItem)]'),
+        TypeItem(CH, 'struct', 'Channel', known_fields=['rx', 'tx'], attrs='#[verifier::reject_recursive_types(Item)] #[verifier::reject_recursive_types(SinkItem)]'),
         Fn(CH, None, 'unbounded', tags='C15',
            ensures='''
              // the two peers are cross-wired: what one sends is what the other receives
@@ -114,7 +117,7 @@ def unit():
                  final(self).tx.sent() == old(self).tx.sent(), // @C15
                '''),
         ]),
-        TypeItem(ST, 'struct', 'Transport', rules=SERDE_RULES, attrs='#[verifier::reject_recursive_types(Item)] #[verifier::reject_recursive_types(SinkItem)]'),
+        TypeItem(ST, 'struct', 'Transport', rules=SERDE_RULES, known_fields=['inner'], attrs='#[verifier::reject_recursive_types(Item)] #[verifier::reject_recursive_types(SinkItem)]'),
         Impl('impl<Item, SinkItem> Transport<Item, SinkItem>', qual='serde_transport::Transport', parts=[
             Fn(ST, ST_STREAM, 'poll_next', tags='C15', rules=SERDE_RULES,
                ensures='''
